@@ -246,6 +246,16 @@ def replay_main(prop, path):
 # -------------------------------------------------------------------------
 # driver side
 
+# Thorough tier: the module's shard list is generated for several derived seeds (the random parts explore
+# different cases; exhaustively enumerated parts repeat and are de-duplicated by the distinct-case hashes).
+# Factors were sized from measured single-pass thorough wall times so that a thorough run takes ~3-6 min on
+# 16 cores; modules whose thorough tier is dominated by exhaustive enumeration keep factor 1.
+THOROUGH_REPEATS = {"C02": 6, "C03": 6, "C04": 5, "C09": 2, "C11": 4, "C12": 3, "C14": 3, "C15": 3, "C16": 4,
+                    "C17": 3, "C19": 3, "C20": 3, "C21": 3, "C22": 6, "C23": 5, "C24": 4, "C25": 4, "C26": 4,
+                    "C27": 3, "C28": 5, "C29": 4, "C30": 4, "C31": 4, "C32": 4, "C36": 4, "C40": 3, "C42": 3,
+                    "C43": 4, "C44": 4, "C45": 5, "C46": 6, "C47": 3, "C48": 6}
+
+
 def load_known(prop):
     known = {}
     p = os.path.join(VERIF, "known_findings.jsonl")
@@ -294,7 +304,16 @@ def _run_one(prop, spec, tier, seed, idx, tmpdir, timeout):
 def main_check(prop, tier, seed, jobs=None):
     t0 = time.time()
     mod = load_module(prop)
-    specs = mod.shards(tier, seed)
+    reps = THOROUGH_REPEATS.get(prop, 1) if tier == "thorough" else 1
+    reps = int(os.environ.get("VERIF_THOROUGH_REPEATS") or reps)
+    specs = []
+    for k in range(reps):
+        sk = seed if k == 0 else seed + 7919 * k
+        for s in mod.shards(tier, sk):
+            s.setdefault("seed", sk)
+            if k and s.get("shard") is not None:
+                s["shard"] = s["shard"] + 100000 * k
+            specs.append(s)
     for i, s in enumerate(specs):
         s.setdefault("shard", i)
         s.setdefault("seed", seed)
@@ -370,6 +389,7 @@ def main_check(prop, tier, seed, jobs=None):
         "samples": samples or ["<none>"],
         "distinct_cases": distinct_n,
         "shards": len(specs),
+        "seed_repeats": reps,
         "monitor_counters": {k: v for k, v in sorted(counters.items())
                              if not k.startswith("viol:")},
         "distinct_sets": {k: len(v) for k, v in sets.items()},
